@@ -1,7 +1,7 @@
 """C15 - response headers act as a case-insensitive map; cookies get separate lines; cookie attributes exact;
 URI-bearing helpers emit ASCII that decodes back."""
 PROP = 'C15'
-LEAN_MODULES = ['FalconModel.RespHeadersProofs', 'FalconModel.CookieOutProofs', 'FalconModel.RespProps']
+LEAN_MODULES = ['FalconModel.RespHeadersProofs', 'FalconModel.CookieOutProofs', 'FalconModel.RespPropsProofs']
 DRIVERS = ['hddriver', 'cwdriver', 'rpdriver']
 THEOREMS = [
     # round 0: operation-wise statements over an abstract normalisation `norm` (= str.lower) and `cookie` (= 'set-cookie')
@@ -24,6 +24,21 @@ THEOREMS = [
     'Cw.natDec_4', 'Cw.imfDate_dateChars', 'Cw.parseDate_imfDate', 'Cw.weekdayOfOrd_succ', 'Cw.weekday_epoch',
     # the request-side facts the echo theorem composes with (C09 owns the model)
     'Ck.unquote_quote', 'Ck.cUnquote_quote',
+    # round 3: the typed header properties and append_link (RespProps.lean: _header_property, response_helpers._format_*, secure_filename,
+    # uri.encode_check_escaped / encode_value(_check_escaped) as proved for C10, Response.append_link)
+    'Rp.location_ascii_and_decodes_back', 'Rp.encodeCheckStr_charset', 'Rp.decode_encodeCheckStr', 'Rp.encodeCheckStr_escaped', 'Rp.encodeCheckStr_not_escaped',
+    'Rp.linkValue_eq', 'Rp.link_target_reads_back', 'Rp.link_params_read_back', 'Rp.link_anchor_reads_back', 'Rp.title_star_decodes_back',
+    'Rp.rel_plain', 'Rp.rel_ext_single', 'Rp.rel_ext_members', 'Rp.crossP_spec', 'Rp.linkValue_none_iff', 'Rp.link_value_ascii',
+    'Rp.appendLink_eq_appendHeader', 'Rp.link_header_after_append',
+    'Rp.unquoteQS_escapeQS', 'Rp.ascii_filename_quoted_string_reads_back', 'Rp.filename_star_decodes_back', 'Rp.content_disposition_params',
+    'Rp.content_disposition_ascii', 'Rp.dtype_ok', 'Rp.formatContentDisposition_isSome',
+    'Rp.secureFilename_spec', 'Rp.secureCore_chars', 'Rp.secureCore_head', 'Rp.secureCore_length', 'Rp.secureCore_keeps', 'Rp.secureCore_idem',
+    'Rp.etag_quoting_idempotent', 'Rp.formatEtag_spec', 'Rp.formatEtag_none_iff', 'Rp.header_value_list_join', 'Rp.split2_join', 'Rp.split1_join',
+    'Rp.content_range_format_exact', 'Rp.content_range_reads_back', 'Rp.content_range_bytes_reads_back', 'Rp.digitsVal_natDec', 'Rp.natDec_digits',
+    'Rp.property_set_get_roundtrip', 'Rp.property_transform_raises', 'Rp.property_none_deletes', 'Rp.property_del', 'Rp.propAssign_eq_applyOp',
+    'Rp.property_get_header', 'Rp.assign_get', 'Rp.assign_none', 'Rp.key_ne_cookie',
+    # the str-level encoder theorems these compose (C10 owns the model)
+    'Us.decode_encodeStr', 'Us.decode_encode_uri_str', 'Us.decode_encode_value_str', 'Us.encodeStr_charset', 'Us.ascii_of_looksEscapedS',
 ]
 STATEMENTS = {
     'Hd.get_after_set': 'after set_header(a, v), get_header(b) returns v for every spelling b that normalises like a',
@@ -67,12 +82,49 @@ STATEMENTS = {
     'Cw.parseDate_imfDate': 'an IMF-fixdate reader returns the civil fields the expires text was rendered from (four-digit years)',
     'Cw.getdate_eq_imfDate': 'before the year 10000 http.cookies._getdate writes the same text as strftime would for that moment',
     'Cw.weekdayOfOrd_succ': 'consecutive days have consecutive weekdays; with Cw.weekday_epoch (1970-01-01 is a Thursday) this fixes the weekday of every date',
+    'Rp.location_ascii_and_decodes_back': 'for every str s of scalar values, resp.location = s / resp.content_location = s (uri.encode_check_escaped) stores only visible ASCII (0x21..0x7E, so no blank, no control character); if s does not pass the already-escaped heuristic, falcon.uri.decode(stored, unquote_plus=False) == s; if it does, it is stored unchanged; a string without "%" decodes back in either case',
+    'Rp.encodeCheckStr_charset': 'every character a check-escaped encoder returns is an allowed character of its table, "%" or an upper-case hex digit',
+    'Rp.decode_encodeCheckStr': 'a check-escaped encoder followed by uri.decode is the identity on every str that does not look escaped (for the value table with either unquote_plus setting)',
+    'Rp.linkValue_eq': 'the text append_link builds is "<" + encode_check_escaped(target) + ">" followed by "; " + parameter for the parameters rel, title, title*, type, hreflang (one per tag; a lone empty piece for an empty list), anchor, crossorigin, link_extension in this order; ValueError exactly when crossorigin is rejected',
+    'Rp.link_target_reads_back': 'for every append_link call that returns: the text between "<" and the first ">" of the link is the check-escaped encoding of the target - visible ASCII that percent-decodes to the target, or the target itself if it already looked escaped',
+    'Rp.link_params_read_back': 'if no rendered parameter contains "; ", splitting what follows <target> at "; " returns exactly the parameters append_link wrote, in order',
+    'Rp.link_anchor_reads_back': 'the anchor parameter is anchor="E" with no "; " inside; a quoted-string reader returns E, which is visible ASCII and percent-decodes to the anchor (or is the anchor if it already looked escaped)',
+    'Rp.title_star_decodes_back': "the title* parameter is title*=UTF-8'lang'E; an RFC 8187 ext-value reader returns (UTF-8, lang, E) when lang has no quote; E consists of unreserved characters and %XX and percent-decodes (both unquote_plus settings) to the text unless that already looked escaped, in which case E is the text",
+    'Rp.rel_ext_single': 'a rel containing "//" and no blank is emitted as one quoted check-escaped URI that reads back and decodes to rel',
+    'Rp.rel_ext_members': 'a rel containing "//" and a blank is emitted as a quoted-string whose content, split at " ", is one check-escaped URI per whitespace-separated member of rel (str.split()), each visible ASCII decoding back to its member',
+    'Rp.linkValue_none_iff': 'append_link raises ValueError iff crossorigin is given and, lower-cased, is neither "anonymous" nor "use-credentials"',
+    'Rp.link_value_ascii': 'every character of a Link value is printable ASCII whatever the target, anchor, title* text and extension relation types are, provided the arguments falcon writes verbatim (plain rel, title, language tags, type hint, extension pairs) are printable ASCII',
+    'Rp.appendLink_eq_appendHeader': 'the store update of append_link is append_header("Link", value) of the Hd model, so the Hd history theorems cover it',
+    'Rp.link_header_after_append': 'after append_link the Link header is the new link alone or old + ", " + new; no other header, raw line or cookie changes',
+    'Rp.unquoteQS_escapeQS': 'for EVERY str v an RFC 9110 quoted-string reader applied to DQUOTE + v.replace("\\","\\\\").replace(\'"\',\'\\"\') + DQUOTE returns v',
+    'Rp.ascii_filename_quoted_string_reads_back': 'for every ASCII filename, downloadable_as / viewable_as store "<type>; filename=" + q where a quoted-string reader turns q back into the filename (fix 38a4696, finding F27); q adds only DQUOTE and backslash to the characters of the filename',
+    'Rp.filename_star_decodes_back': "for every non-ASCII filename (scalar values) and ANY normalisation function in place of NFKD the value is <type>; filename=<token>; filename*=UTF-8''E: the token is made of letters, digits, '.', '-', '_' and does not start with a dot; E is unreserved characters and %XX, percent-decodes to the filename, and an RFC 8187 reader splits UTF-8''E into (UTF-8, no language, E)",
+    'Rp.content_disposition_params': 'splitting that value at "; " returns exactly the type, filename=<token> and filename*=UTF-8\'\'E',
+    'Rp.content_disposition_ascii': 'that value is visible ASCII plus the separating blanks',
+    'Rp.formatContentDisposition_isSome': 'the ValueError of secure_filename (empty name) can never surface through downloadable_as / viewable_as: the empty string is ASCII',
+    'Rp.secureFilename_spec': 'secure_filename raises exactly for the empty string; otherwise the result has the length of the normalised text, consists of letters, digits, ".", "-", "_" and does not start with "."',
+    'Rp.secureCore_idem': 'sanitising an already sanitised name changes nothing',
+    'Rp.etag_quoting_idempotent': 'whatever resp.etag = v stores ends with a double quote, and storing that again stores the same text',
+    'Rp.formatEtag_spec': 'the etag transform wraps the value in double quotes unless its last character is a double quote; IndexError exactly for the empty string (formatEtag_none_iff)',
+    'Rp.header_value_list_join': 'cache_control / vary store the members joined by ", "; when no member contains ", " splitting at ", " returns the members',
+    'Rp.content_range_format_exact': 'content_range: a 3-tuple gives "bytes a-b/c", a 4-tuple "u a-b/c", five or more members the bytes form of the first three, fewer than three IndexError; members are rendered as str()',
+    'Rp.content_range_reads_back': 'for non-negative first / last, any length and a unit without a blank a Content-Range reader (split at SP, "-", "/"; int()) returns exactly unit, first, last and the length text',
+    'Rp.property_set_get_roundtrip': 'resp.<prop> = v with a transform that returns s: resp.<prop> then reads str s; every other header, the raw Set-Cookie lines and the cookie jar are unchanged',
+    'Rp.property_transform_raises': 'if the transform raises, nothing is stored',
+    'Rp.property_none_deletes': 'resp.<prop> = None never raises, removes that header and changes nothing else',
+    'Rp.property_del': 'del resp.<prop> raises KeyError exactly when the header is absent and otherwise removes it and nothing else',
+    'Rp.propAssign_eq_applyOp': 'the descriptors are the propSet / propDel operations of the Hd history theorems (no property is named Set-Cookie: key_ne_cookie)',
+    'Rp.property_get_header': 'a property that was set is returned by get_header in every spelling of its header name',
 }
 TRUSTED = [
     'http.cookies (SimpleCookie.__setitem__, Morsel.set / OutputString, _quote, _getdate), datetime.strftime(%a, %d %b %Y %H:%M:%S GMT) on glibc, datetime.astimezone(utc) and time.gmtime are TRANSCRIBED in CookieOut.lean; '
     'their agreement with CPython 3.12 is established by the exact-line correspondence only. email.utils / urllib.parse serve as reference formatters/decoders in the oracle',
     'str.lower on ASCII header names = the abstract `norm` of the Hd theorems; in the Hd model the cookie jar is a dict name -> rendered line (Cw produces that line); '
     'same_site.lower()/capitalize() are modelled on ASCII (no non-ASCII character lower-cases to a letter of lax/strict/none); int(str) as in C09 (Hp.pyInt, Latin-1)',
+    "Rp: unicodedata.normalize('NFKD', .) inside secure_filename is NOT modelled - it is a parameter of the model (every Rp theorem holds for any function in its place) and the driver is handed the "
+    "normalised text computed by CPython; crossorigin.lower() is ASCII lower-casing (no non-ASCII character lower-cases into the alphabet of 'anonymous' / 'use-credentials' - checked over all code points on every run); "
+    "str.split() whitespace and the characters secure_filename keeps are tables compared with CPython / falcon on every run (rpdriver `tables`); str(int) = decimal digits; "
+    'header values are str in the model and String (same code points) in the Hd store; dt_to_http (expires, last_modified) is not in Rp (Cw.imfDate models the same strftime format for cookies)',
 ]
 ASSUMPTIONS = [
     'header names are ASCII tokens in arbitrary letter case; values are str over printable ASCII / latin-1 (raw Set-Cookie values ASCII); list-valued properties (cache_control, vary) get lists/tuples, etag is non-empty',
@@ -94,11 +146,17 @@ RULE = ('histories of 1..12 operations (set / append / delete / get / set_header
         'combinations above plus datetimes over years 1..9999 with second-granular offsets, overflow at both ends, leap days, max_age strings with sign / blanks / underscores / garbage, negative and huge '
         'floats, non-ASCII same_site, Domain/Path containing "; "), after every call the exact Set-Cookie values of _wsgi_headers() / _asgi_headers() (taken within one clock second) and every exception '
         'kind are compared with the Cw model; each set_cookie is repeated on a fresh response against the stateless setCookieLine. '
-        'URI cases: unicode targets / titles / filenames through location, content_location, append_link, downloadable_as, viewable_as. '
+        'URI cases: unicode / control-character targets, anchors, title* texts, extension relation types (blank, tab, NBSP, EM SPACE separated) and filenames (incl. leading dots, compatibility characters) through location, '
+        'content_location, append_link (1..3 calls; all keyword arguments incl. empty lists, rejected crossorigin values), downloadable_as, viewable_as, plus etag / cache_control / vary / content_range / content_length / content_type / '
+        'retry_after / accept_ranges with assignment of None and del; the exact emitted value (from _wsgi_headers() / _asgi_headers()) and every exception are compared with the Rp model, secure_filename and _is_ascii_encodable directly. '
         'non-trivial = at least one mutation succeeded; distinct = distinct operation list')
-PARTIAL = ('modelled and proved: the three header stores (Hd) and the text of every cookie line (Cw: set_cookie / unset_cookie / Morsel.OutputString / _quote / strftime / astimezone / _getdate, '
-           'attributes exact, Secure default, rejections, echo through the request parser Ck, expiry of unset cookies). Not modelled in Lean: the typed-property value transforms and the URI / RFC 5987 '
-           'encoders (location, content_location, append_link, downloadable_as, viewable_as) - they are checked by the statement oracle on every run (C10 proves the uri encode/decode round trip separately). '
+PARTIAL = ('modelled and proved: the three header stores (Hd), the text of every cookie line (Cw: set_cookie / unset_cookie / Morsel.OutputString / _quote / strftime / astimezone / _getdate, '
+           'attributes exact, Secure default, rejections, echo through the request parser Ck, expiry of unset cookies) and the typed header properties + append_link (Rp: _header_property, _format_range, '
+           '_format_content_disposition + secure_filename, _format_etag_header, _format_header_value_list, _is_ascii_encodable, encode_check_escaped for Location / Content-Location, the complete Link value; '
+           'ASCII + decode-back theorems composed from the C10 str-level encoder proofs). Not native in Lean: NFKD normalisation inside secure_filename (a parameter of the model; only the fallback filename= token depends on it, '
+           'the filename* round trip does not); dt_to_http of expires / last_modified (reference formatter in the oracle); lone surrogates (UnicodeEncodeError) are outside the Rp theorems (ValidStr). '
+           'The parameter read-back of a Link (link_params_read_back) assumes no rendered parameter contains "; " (true by proof for anchor and title* with a blank-free language tag; titles / extension relation types may contain it inside quotes); '
+           'a Link TITLE is written verbatim by falcon (no escaping) - documented, not part of the property. '
            'The Hd jar theorems take a cookie line as given and Cw produces it; the two are joined by the correspondences (real lines are fed to hddriver), not by a Lean theorem. '
            'The read-back theorems assume Domain/Path without ";"; echo is proved for one cookie-pair per header (several pairs: Ck.parseCookieHeader_render covers RFC cookie-octet values only).')
 JOBS = {'quick': 4, 'thorough': 16}
@@ -111,10 +169,15 @@ LEVEL_TEXT = ('Machine-checked proofs (Lean 4) about a transcription of the thre
               '(Max-Age iff given incl. 0, Secure from the option, SameSite capitalised, ...); cookie_echo_reads_back composes with the request-side parser model of C09 (Ck.unquote_quote); '
               'unset_cookie_is_expired uses a proved calendar (ord2ymd_spec, epoch_gmtime) to show the Expires text denotes t-1. The models are tied to falcon/response.py and falcon/asgi/response.py on every run by a '
               'differential correspondence over random histories (every read, every HeaderNotSupported, the exact emitted list on both stacks; for cookies the exact text of every line and every exception kind); an independent oracle written from '
-              'the statement additionally judges cookie attributes, cookie echo through the request API, expiry of unset cookies and the ASCII/decode-back claims of the URI-bearing helpers.')
+              'the statement additionally judges cookie attributes, cookie echo through the request API, expiry of unset cookies and the ASCII/decode-back claims of the URI-bearing helpers. '
+              'A third model (Rp) transcribes the typed header properties (_header_property and the response_helpers transforms, secure_filename) and the value append_link builds, on top of the C10 str-level URI encoders: '
+              'location_ascii_and_decodes_back, link_target_reads_back, link_anchor_reads_back, rel_ext_members, title_star_decodes_back and filename_star_decodes_back prove for every str of scalar values that what is emitted is '
+              'visible ASCII that percent-decodes to the original (or is the original when it already looked escaped); ascii_filename_quoted_string_reads_back proves the quoted-string repair for every str; '
+              'etag / list / Content-Range formatting and the set / None / del behaviour of the descriptors on the Hd store are proved as well. Rp is tied to the real classes by comparing the exact emitted value of every such property and of every Link header.')
 LEVEL_NOTE = ('Trusted: Lean kernel + standard axioms; correspondence harness and oracle; that CookieOut.lean transcribes http.cookies / strftime / gmtime faithfully (checked by the exact-line correspondence); '
-              'str.lower = norm on ASCII names. Property transforms and URI encoders are oracle-checked, not proved.')
-TECHNIQUE = 'Lean 4 refinement proof (three header stores -> case-insensitive map + emitted list) + Lean 4 render/parse round-trip proofs for cookie lines + differential correspondence vs. real Response classes + statement oracle'
+              'str.lower = norm on ASCII names; NFKD normalisation is an input of the Rp model (CPython computes it), ASCII lower-casing for crossorigin, the CPython whitespace table for rel.split().')
+TECHNIQUE = ('Lean 4 refinement proof (three header stores -> case-insensitive map + emitted list) + Lean 4 render/parse round-trip proofs for cookie lines, URI-bearing header values and quoted filenames '
+             '+ differential correspondence vs. real Response classes + statement oracle')
 
 _UNRES = 'ABCDEFGHIJKLMNOPQRSTUVWXYZabcdefghijklmnopqrstuvwxyz0123456789-._~'
 _URI_OK = _UNRES + ":/?#[]@!$&'()*+,;="
